@@ -129,7 +129,7 @@ PROPS["C13"] = {
 
 PROPS["C11"] = {
     "module": "RCE.Props.C11",
-    "theorems": ["RCE.Props.C11.ab_eq_negamax"],
+    "theorems": ["RCE.Props.C11.ab_eq_negamax", "RCE.Props.C11.ref_root_value_eq", "RCE.Props.C11.ref_root_move_value_eq"],
     "streams": {"quick": [SO_Q], "thorough": [SO_T]},
     "eval_key": "cases", "distinct_key": "distinct_cases",
     "rule": SEARCH_RULE + "; for C11: cache neutralised by the hook, no limits; the root score read from info.best_score and the value of the chosen move are compared with a reference "
@@ -141,7 +141,8 @@ PROPS["C11"] = {
 PROPS["C16"] = {
     "module": "RCE.Props.C16",
     "theorems": ["RCE.Props.C16.search_clock_indep"],
-    "streams": {"quick": [S("search-plain", "plain", 48, 3, extra=["--repeat", 3])], "thorough": [S("search-plain", "plain", 400, 4, extra=["--repeat", 3]),
+    "streams": {"quick": [S("search-plain", "plain", 48, 3, extra=["--repeat", 3]), S("search-deep", "deep", 2, 7, shards=2)],
+                "thorough": [S("search-plain", "plain", 400, 4, extra=["--repeat", 3]), S("search-deep", "deep", 4, 7, shards=4, extra=["--repeat", 3]),
                              {"name": "search-bench", "stream": "search", "driver": "search:0", "shards": 16, "args": ["--mode", "file", "--cases", "work/bench_cases.txt"]}]},
     "eval_key": "cases", "distinct_key": "distinct_cases",
     "rule": SEARCH_RULE + "; thorough: the 62 bench positions to bench::MAXDEPTH in-process, node counts and every cache write equal to the model's (the bench node total is their sum); for C16: every case is run three times in one process from a fresh cache and all outputs (info lines, bestmove, every cache insert, counters, cache checksum) "
@@ -151,7 +152,8 @@ PROPS["C16"] = {
 
 PROPS["C09"] = {
     "module": "RCE.Props.C09",
-    "theorems": ["RCE.Props.C09.one_legal_bestmove", "RCE.Props.C09.ply_restored"],
+    "theorems": ["RCE.Props.C09.one_legal_bestmove", "RCE.Props.C09.ply_restored", "RCE.Props.C09.chess_bestmove_legal_by_the_rules",
+                 "RCE.Props.C09.chess_eval_bounded", "RCE.Props.C09.chess_go_answers_a_legal_move"],
     "streams": {"quick": [SP_Q, SB_Q, SS_Q], "thorough": [SP_T, SB_T, SS_T]},
     "eval_key": "cases", "distinct_key": "distinct_cases",
     "rule": SEARCH_RULE + "; for C09: exactly one bestmove line per search, the move must be legal in the rules spec's position, no panic of the search, under every node budget and stop point "
